@@ -37,7 +37,10 @@ RULE = ("dump: per cooler (12 quick / 30 thorough small coolers: symmetric+squar
         "--float-format, -k 1..3) on the others; load: dump|load round trips (coo/bg2, zero/one-based, symmetric/square/duplex, "
         "chunksize 1..n) and hand-written files with count/extra fields at arbitrary (non-ascending) column numbers; cload pairs: all 24 "
         "permutations of -c1 -p1 -c2 -p2 over the first four columns plus random injective layouts over 5-8 columns with gaps and 1-2 extra "
-        "--field columns; non-trivial = at least one data row and at least one non-default option / a non-identity column layout; distinct by input hash")
+        "--field columns; audit block: 16 structured (row, column) region pairs (identical, up/downstream, overlapping, nested, trans, single bins, "
+        "chromosome ends; four region spellings) x 6 annotating option sets (--join / -b / --annotate / one-based / -c / --na-rep) x -f x -k on two coolers, "
+        "float-count cooler with extra bin and pixel columns inside an HDF5 group, and one case per remaining load / cload option and input form "
+        "(comment lines, gz, stdin, short flags, duplex with diagonal and mirrored records, positions inside bins, agg=max/min, --append, --metadata ...); non-trivial = at least one data row and at least one non-default option / a non-identity column layout; distinct by input hash")
 TRUSTED = ["pandas to_csv / read_csv tokenisation are observed through the CLI, not modelled (the model works on tokenised records and on cells)",
            "click option parsing is observed, not modelled"]
 ASSUMPTIONS = ["region -> bin range (region_to_extent) is given to the model as the pair of bin ranges computed by an independent overlap rule (owned by C04)",
